@@ -109,8 +109,25 @@ def template(t, cls, **sel):
     return _check(eqfam.template_spec(C01.TNAMES[t], gl.CLS_NAMES[cls], sel))
 
 
+def biatrop(par, mixed, zsame, cls):
+    """(round 3) meso / chiral molecule with two atrop axes, the second one optionally written in the other equivalent notation; both notations must behave alike"""
+    from vp.lib import tmpl
+    spec = tmpl.biatrop(gl.CLS_NAMES[cls], 1 if par else -1, mixed, zsame)
+    msg = _check(spec)
+    if msg:
+        return msg
+    other = tmpl.biatrop(gl.CLS_NAMES[cls], 1 if par else -1, not mixed, zsame)
+    ga, gb = gl.build(spec), gl.build(other)
+    if not (ga == gb and gb == ga) or not (ga.enantiomer() == gb.enantiomer()):
+        return "the two equivalent notations of the second atrop axis give unequal graphs / unequal enantiomers"
+    return None
+
+
 def plan(tier, seed):
     units = [u for u in eqlib.family_units(tier, "vp.props.C06") if u.name.split("_")[-1] in ("SMG", "SCRG")]
+    from vp.runner import Sel as _Sel
+    units.append(_Sel(name="biatrop", func="vp.props.C06:biatrop", params={"par": "bool", "mixed": "bool", "zsame": "bool", "cls": (1, 4)}, pre=["cls != 2"],
+                      shard_by=[], timeout=900))
     if tier == "quick":
         # octahedral / trigonal bipyramidal centres with repeated ligands (achiral and chiral arrangements of MA2B2C2, MA3B3, MA2B2CD, MA2B3): strided orderings
         from vp.runner import Sel
